@@ -159,3 +159,346 @@ def C01(tier, seed):
 
 def C02(tier, seed):
     return check_exact('C02', tier, seed)
+
+
+# ----------------------------------------------------------------------------- C05 / C06 / C15
+def approx_cases(tier, seed, algos=('approx_signed', 'approx_fvs', 'approx_iso'), ks=(0, 1, 2, 3)):
+    cases = []
+    g4 = [(4, g) for g in all_labelled_graphs(4)]
+    base = [(n, g) for n, g in small_graphs(3)] + g4
+    maxfull = 5 if tier == 'quick' else 6
+    for algo in algos:
+        for k in ks:
+            for n, g in base:
+                m = len(g)
+                if k == 0 and not (m in (0, 3) or (n, m) == (4, 5)):
+                    continue  # k=0 is rejected before anything depends on the graph: a few shapes suffice
+                if tier == 'quick' and n == 4 and m < 3 and k > 1:
+                    continue
+                if m <= maxfull:
+                    cases.append('algo=%s k=%d n=%d edges=%s sym=all' % (algo, k, n, edges_str(g)))
+                else:
+                    r = rng(hash((seed, algo, k, tuple(g))) & 0xffffffff)
+                    symidx = sorted(r.sample(range(m), 3))
+                    cases.append('algo=%s k=%d n=%d edges=%s sym=%s' % (algo, k, n, edges_str(g), ','.join(map(str, symidx))))
+            if k == 0:
+                continue
+            # girth-5 and chorded-cycle shapes: the k=2 spanner keeps cycles, so the exact phase really runs
+            fams = [('C5', 5), ('theta2_2_3', 3), ('petersen', 2), ('K33', 2), ('grid3x3', 2), ('two_triangles_bridge', 3)]
+            if tier == 'thorough':
+                fams += [('theta3_3_3', 3), ('Q3', 2), ('K5', 3), ('prism', 3), ('petersen', 3), ('C6', 6), ('wheel5', 3)]
+            for f, ns in fams:
+                cases += slice_cases(algo, f, ns, seed, variants=1 if tier == 'quick' else 2, extra=' k=%d' % k)
+            # C5 plus one chord, C6 plus a long chord
+            cases.append('algo=%s k=%d n=5 edges=0-1,1-2,2-3,3-4,0-4,0-2 sym=%s' % (algo, k, 'all' if tier == 'thorough' else '0,2,5'))
+            cases.append('algo=%s k=%d n=6 edges=0-1,1-2,2-3,3-4,4-5,0-5,0-3 sym=%s' % (algo, k, '0,3,6' if tier == 'quick' else '0,1,3,6'))
+    return cases
+
+
+def spanner_cases(tier, seed):
+    cases = []
+    for k in (1, 2, 3):
+        for n, g in small_graphs(3) + [(4, g) for g in all_labelled_graphs(4)]:
+            cases.append('algo=spanner k=%d n=%d edges=%s sym=all' % (k, n, edges_str(g)))
+        fams = [('C5', 5), ('petersen', 2), ('K33', 3), ('grid3x3', 3), ('K5', 4)]
+        if tier == 'thorough':
+            fams += [('petersen', 4), ('Q3', 4), ('K6', 4), ('grid3x4', 4), ('wheel5', 5), ('prism', 5)]
+        for f, ns in fams:
+            cases += slice_cases('spanner', f, ns, seed, variants=1 if tier == 'quick' else 2, extra=' k=%d' % k)
+        if tier == 'thorough':
+            for g in iso_classes(5, max_m=7, min_m=4):
+                cases.append('algo=spanner k=%d n=5 edges=%s sym=all' % (k, edges_str(g)))
+    return cases
+
+
+def check_approx(prop, tier, seed):
+    t0 = time.time()
+    h, r_mcb = build_many([('harness/h_approx.cpp', 'symx'), ('replay/r_mcb.cpp', 'real')])
+    if prop == 'C15':
+        cases = spanner_cases(tier, seed)
+    else:
+        cases = approx_cases(tier, seed)
+    budget = 900 if tier == 'quick' else 3300
+    agg = Agg([prop + ':'])
+    out = Outcome(prop)
+    wcases = [c for c in cases if 'n=4' in c and 'sym=all' in c and 'k=0' not in c][-9:]
+    ws, _ = run_harness(h, wcases, prop + '-witness', timeout=300, witness=True)
+    if ws.get('witness_hits', 0) <= 0:
+        out.fault = 'witness twin was not violated: assumptions unsatisfiable or assertion unreachable'
+    leaves_for_tv = []
+
+    def keep(rec):
+        if 'ret' in rec and (rec['path'] % 5 == 0 or rec['depth'] == 0) and len(leaves_for_tv) < 60000:
+            leaves_for_tv.append(rec)
+    s, log = run_harness(h, cases, prop + '-' + tier, timeout=budget)
+    agg.add_summary(s)
+    agg.witness_hits = ws.get('witness_hits', 0)
+    agg.add_log(log, keep)
+    if agg.leaves == 0 or not agg.obl:
+        out.fault = 'no leaf reached an obligation of ' + prop
+    nvalid = 0
+    if not out.fault and prop != 'C15':
+        # the approximate result is not unique (pointer/tie order); validate N only and the property itself on the real build
+        r = rng(seed)
+        r.shuffle(leaves_for_tv)
+        lines, meta = [], []
+        for rec in leaves_for_tv[:(48 if tier == 'quick' else 2000)]:
+            weights, den = instance_weights(rec, rec['model'])
+            if max(weights + [0]) > 2 ** 40:
+                continue
+            lines.append(replay_line(rec, weights, 'double'))
+            meta.append(rec)
+        for rec, o in zip(meta, run_replayer_batch(r_mcb, lines)):
+            k = int(rec['k'])
+            if o.get('crashed') or o['N'] != int(rec['N']) or c01_violated(o) or o['ret'] != o['sum'] or approx_bound_violated(o, k):
+                out.fault = 'translation validation: real double build disagrees with symbolic leaf %s: %s' % (rec.get('case'), json.dumps(o)[:300])
+                break
+            nvalid += 1
+    if not out.fault:
+        if prop == 'C15':
+            if agg.violated or agg.crashes:
+                # the spanner is internal state: a counterexample is replayed by re-running the same harness on the
+                # concrete weights of the model (all-fixed case), which must violate the same obligation again
+                redo = []
+                for rec, obl in agg.violated[:20]:
+                    weights, _ = instance_weights(rec, obl.get('model') or rec['model'])
+                    redo.append('algo=spanner k=%s n=%s edges=%s sym=none fixed=%s' % (rec['k'], rec['n'], rec['edges'], ','.join(map(str, weights))))
+                s2, log2 = run_harness(h, redo, prop + '-confirm', timeout=300)
+                a2 = Agg([prop + ':'])
+                a2.add_log(log2)
+                if len(a2.violated) == 0 and not agg.crashes:
+                    out.fault = 'C15 counterexample did not reproduce on concrete weights'
+                else:
+                    for i, (rec, obl) in enumerate(a2.violated[:10]):
+                        rp = os.path.join(cex_dir(), 'C15-replay-%d.json' % i)
+                        json.dump({'property': 'C15', 'replayer': 'harness/h_approx.cpp (concrete weights)', 'line': rec['case'],
+                                   'obligation': obl['name']}, open(rp, 'w'), indent=1)
+                        key = 'spanner/k=%s/%s' % (rec['k'], rec['edges'])
+                        kf = finding_matches(prop, key)
+                        if kf:
+                            out.n_known += 1
+                            out.known_lines.append('KNOWN-FINDING: property=%s %s' % (prop, kf['text']))
+                        else:
+                            out.n_confirmed += 1
+                            out.violation_lines.append('VIOLATION property=%s replay=%s' % (prop, rp))
+                    if agg.crashes and not a2.violated:
+                        out.fault = 'crash inside spanner construction: %s' % json.dumps(agg.crashes[0])[:300]
+        else:
+            def pred(o, rec):
+                k = int(rec['k'])
+                if prop == 'C05':
+                    return c01_violated(o) or o['ret'] != o['sum']
+                if k == 0:
+                    return o.get('crashed') or o['exception'] == '' or o['N'] != 0
+                return approx_bound_violated(o, k)
+            confirm_violations(prop, agg, r_mcb, pred,
+                               lambda rec, obl: '%s/k=%s/%s' % (rec.get('algo'), rec.get('k'), rec.get('edges')), out)
+    bounds = {
+        'functions_encoded': ['parmcb::approx_mcb_sva_signed', 'parmcb::approx_mcb_sva_fvs_trees', 'parmcb::approx_mcb_sva_iso_trees',
+                              'parmcb::detail::BaseApproxSpannerAlgorithm (construct_spanner, run)', 'parmcb::is_bfs_reachable',
+                              'parmcb::dijkstra', 'NonSpannerEdgesCycleBuilder', 'std::sort with symbolic comparisons'],
+        'bounds': ('k in {0,1,2,3} (for n<=5, 2k-1 >= n-1 from k=3 on); every labelled simple graph on <=4 vertices with m<=5 (thorough: 6) '
+                   'fully symbolic, heavier ones as 3-symbolic slices; C5, chorded C5/C6, theta graphs, Petersen, K33, 3x3 grid as 2..6-symbolic slices'),
+        'outside_bounds': 'k whose 2k-1 overflows size_t; graphs beyond the listed ones; the *_tbb approximate entry points (C03)',
+    }
+    return finish(prop, tier, seed, 'model_checking', agg, out, bounds, ASSUME_A, t0, nvalid)
+
+
+def C05(tier, seed):
+    return check_approx('C05', tier, seed)
+
+
+def C06(tier, seed):
+    return check_approx('C06', tier, seed)
+
+
+def C15(tier, seed):
+    return check_approx('C15', tier, seed)
+
+
+# ----------------------------------------------------------------------------- generic engine-A check runner
+def run_symx_check(prop, tier, seed, harness_src, cases, budget, tv, confirm, bounds, kind='symx', replayer='replay/r_misc.cpp',
+                   witness_pick=None, assumptions=None, level='model_checking', keep_every=5, extra_cov=None, prefixes=None):
+    """tv(leaves, replayer_bin) -> (nvalid, mismatch|None);  confirm(agg, replayer_bin, out) fills out."""
+    t0 = time.time()
+    h, rbin = build_many([(harness_src, kind), (replayer, 'real')])
+    agg = Agg(prefixes or [prop + ':'])
+    out = Outcome(prop)
+    wcases = (witness_pick(cases) if witness_pick else cases[-6:])
+    ws, _ = run_harness(h, wcases, prop + '-witness', timeout=300, witness=True)
+    if ws.get('witness_hits', 0) <= 0:
+        out.fault = 'witness twin was not violated: assumptions unsatisfiable or assertion unreachable'
+    leaves = []
+
+    def keep(rec):
+        if (rec['path'] % keep_every == 0 or rec['depth'] == 0) and len(leaves) < 60000:
+            leaves.append(rec)
+    s, log = run_harness(h, cases, prop + '-' + tier, timeout=budget)
+    agg.add_summary(s)
+    agg.witness_hits = ws.get('witness_hits', 0)
+    agg.add_log(log, keep)
+    if agg.leaves == 0 or not agg.obl:
+        out.fault = 'no leaf reached an obligation of ' + prop
+    nvalid = 0
+    if not out.fault and tv:
+        r = rng(seed)
+        r.shuffle(leaves)
+        nvalid, mism = tv(leaves[:(48 if tier == 'quick' else 2500)], rbin)
+        if mism:
+            out.fault = 'translation validation: ' + mism
+    if not out.fault and (agg.violated or agg.crashes):
+        confirm(agg, rbin, out)
+    cov = dict(bounds)
+    if extra_cov:
+        cov.update(extra_cov(agg))
+    return finish(prop, tier, seed, level, agg, out, cov, assumptions or ASSUME_A, t0, nvalid)
+
+
+def generic_confirm(prop, line_of, violated_pred, keyfn, replayer_name):
+    """Replay each violated leaf (model → concrete weights) with a concrete replayer; confirmed → VIOLATION."""
+    def confirm(agg, rbin, out):
+        items = [(rec, obl) for rec, obl in agg.violated[:30]]
+        for rec in agg.crashes[:10]:
+            if rec.get('model') and rec.get('edges') is not None:
+                items.append((rec, {'name': prop + ':crash(signal %s)' % rec.get('signal')}))
+            else:
+                out.fault = 'crash without model: %s' % json.dumps(rec)[:300]
+                return
+        for idx, (rec, obl) in enumerate(items):
+            model = obl.get('model') or rec.get('model')
+            weights, _ = instance_weights(rec, model)
+            line = line_of(rec, weights)
+            o = run_replayer(rbin, [line])[0]
+            if not (o.get('crashed') or violated_pred(o, rec, obl)):
+                out.fault = 'counterexample did not reproduce on the real build: %s / %s / %s -> %s' % (
+                    rec.get('case'), obl['name'], line, json.dumps(o)[:300])
+                return
+            key = keyfn(rec, obl)
+            rp = os.path.join(cex_dir(), '%s-replay-%d.json' % (prop, idx))
+            json.dump({'property': prop, 'replayer': replayer_name, 'line': line, 'obligation': obl['name'], 'key': key, 'observed': o},
+                      open(rp, 'w'), indent=1)
+            kf = finding_matches(prop, key)
+            out.replays.append({'key': key, 'line': line, 'obligation': obl['name'], 'known': bool(kf)})
+            if kf:
+                out.n_known += 1
+                msg = 'KNOWN-FINDING: property=%s %s' % (prop, kf['text'])
+                if msg not in out.known_lines:
+                    out.known_lines.append(msg)
+            else:
+                out.n_confirmed += 1
+                out.violation_lines.append('VIOLATION property=%s replay=%s' % (prop, rp))
+    return confirm
+
+
+def topo_cases(tier, seed, prefix='', full_max_quick=5, full_max_thorough=6, fams_quick=(), fams_thorough=(), g5=True, g5_max=6,
+               extra=''):
+    cases = []
+    for n, g in small_graphs(3) + [(4, g) for g in all_labelled_graphs(4)]:
+        m = len(g)
+        lim = full_max_quick if tier == 'quick' else full_max_thorough
+        if m <= lim:
+            cases.append('%sn=%d edges=%s sym=all%s' % (prefix, n, edges_str(g), extra))
+        else:
+            r = rng(hash((seed, prefix, tuple(g))) & 0xffffffff)
+            for k in ((3,) if tier == 'quick' else (3, 4)):
+                symidx = sorted(r.sample(range(m), k))
+                cases.append('%sn=%d edges=%s sym=%s%s' % (prefix, n, edges_str(g), ','.join(map(str, symidx)), extra))
+    for f, ns in (fams_quick if tier == 'quick' else fams_thorough):
+        n, es = family(f)
+        es = norm_edges(es)
+        r = rng(hash((seed, prefix, f, ns)) & 0xffffffff)
+        symidx = sorted(r.sample(range(len(es)), ns)) if ns else []
+        cases.append('%sn=%d edges=%s sym=%s fam=%s%s' % (prefix, n, edges_str(es), ','.join(map(str, symidx)) if symidx else 'none', f, extra))
+    if tier == 'thorough' and g5:
+        for g in iso_classes(5, max_m=g5_max, min_m=4):
+            r = rng(hash((seed, prefix, tuple(g), 'o')) & 0xffffffff)
+            order = list(range(len(g)))
+            r.shuffle(order)
+            cases.append('%sn=5 edges=%s sym=all%s' % (prefix, edges_str(g), extra))
+            cases.append('%sn=5 edges=%s sym=all order=%s%s' % (prefix, edges_str(g), ','.join(map(str, order)), extra))
+    return cases
+
+
+# ----------------------------------------------------------------------------- C12
+def C12(tier, seed):
+    fq = [('K33', 0), ('Q3', 0), ('grid3x3', 0), ('K33', 2), ('grid3x3', 2), ('Q3', 1), ('K5', 2)]
+    ft = fq + [('grid3x4', 0), ('grid3x4', 2), ('K33', 3), ('Q3', 3), ('grid3x3', 3), ('petersen', 0), ('petersen', 2), ('K6', 2),
+               ('wheel5', 3), ('prism', 3)]
+    cases = topo_cases(tier, seed, full_max_quick=5, full_max_thorough=6, fams_quick=fq, fams_thorough=ft, g5_max=6)
+
+    def tv(leaves, rbin):
+        lines, meta = [], []
+        for rec in leaves:
+            weights, den = instance_weights(rec, rec['model'])
+            if max(weights + [0]) > 2 ** 40:
+                continue
+            lines.append('what=sptree n=%s edges=%s weights=%s%s' % (rec['n'], rec['edges'], ','.join(map(str, weights)),
+                                                                     (' order=' + rec['order']) if rec.get('order') else ''))
+            meta.append((rec, den))
+        n = 0
+        for (rec, den), o in zip(meta, run_replayer_batch(rbin, lines)):
+            if o.get('crashed'):
+                return n, 'real build crashed on %s' % rec['case']
+            exp = [[(str(parse_q(x) * den) if x != '-' else '-') for x in row] for row in rec['dist']]
+            got = [[(str(fractions.Fraction(x)) if x != '-' else '-') for x in row] for row in o['dist']]
+            if exp != got or not o['exact']:
+                return n, 'distances differ on %s model %s: symbolic %s real %s' % (rec['case'], rec['model'], exp, got)
+            n += 1
+        return n, None
+
+    confirm = generic_confirm('C12', lambda rec, w: 'what=sptree n=%s edges=%s weights=%s' % (rec['n'], rec['edges'], ','.join(map(str, w))),
+                              lambda o, rec, obl: not o.get('exact', False), lambda rec, obl: 'sptree/%s' % rec['edges'], 'replay/r_misc.cpp')
+    bounds = {
+        'functions_encoded': ['parmcb::lex_dijkstra', 'LexDistanceCompare/Combine', 'parmcb::SPTree (initialize, compute_first_in_path)'],
+        'bounds': 'trees rooted at EVERY vertex in one path; quick: all labelled graphs on <=4 vertices with m<=5 fully symbolic, K4 3-symbolic, '
+                  'all-ties (unit weight) K33, Q3, 3x3 grid plus 1..2-symbolic tie-breaking slices; thorough: K4 fully symbolic, every 5-vertex '
+                  'graph (one labelling + seeded insertion order) with 4<=m<=6 fully symbolic, 3x4 grid, Petersen, K6 slices',
+        'outside_bounds': 'graphs beyond those listed; floating-point rounding (C09)',
+    }
+    return run_symx_check('C12', tier, seed, 'harness/h_sptree.cpp', cases, 900 if tier == 'quick' else 3300, tv, confirm, bounds,
+                          witness_pick=lambda cs: [c for c in cs if c.startswith('n=4') and 'sym=all' in c][-6:])
+
+
+# ----------------------------------------------------------------------------- C14
+def C14(tier, seed):
+    fq = [('K33', 2), ('Q3', 2), ('grid3x3', 2), ('K5', 2), ('two_triangles_bridge', 3), ('tri_plus_tri', 3), ('K33', 0), ('grid3x3', 0)]
+    ft = fq + [('K33', 3), ('Q3', 3), ('grid3x3', 3), ('K5', 3), ('petersen', 2), ('petersen', 0), ('Q3', 0), ('K6', 2), ('wheel5', 3),
+               ('prism', 3), ('grid3x4', 2), ('theta2_2_3', 4)]
+    cases = topo_cases(tier, seed, full_max_quick=4, full_max_thorough=5, fams_quick=fq, fams_thorough=ft, g5_max=5)
+
+    def tv(leaves, rbin):
+        lines, meta = [], []
+        for rec in leaves:
+            weights, den = instance_weights(rec, rec['model'])
+            if max(weights + [0]) > 2 ** 40:
+                continue
+            lines.append('what=coll n=%s edges=%s weights=%s%s' % (rec['n'], rec['edges'], ','.join(map(str, weights)),
+                                                                   (' order=' + rec['order']) if rec.get('order') else ''))
+            meta.append(rec)
+        n = 0
+        for rec, o in zip(meta, run_replayer_batch(rbin, lines)):
+            if o.get('crashed'):
+                return n, 'real build crashed on %s' % rec['case']
+            for nm in ('horton', 'fvs', 'iso'):
+                if ('n_' + nm) in rec and int(rec['n_' + nm]) != o['n_' + nm]:
+                    return n, '%s candidate count differs on %s model %s: symbolic %s real %s' % (nm, rec['case'], rec['model'], rec['n_' + nm], o['n_' + nm])
+            n += 1
+        return n, None
+
+    def bad(o, rec, obl):
+        for nm in ('horton', 'fvs', 'iso'):
+            if not o['sound_' + nm] or not o['weights_' + nm] or o['greedy_dim_' + nm] != o['dim'] or o['greedy_weight_' + nm] != o['opt']:
+                return True
+        return not o['nested_fvs'] or not o['nested_iso']
+    confirm = generic_confirm('C14', lambda rec, w: 'what=coll n=%s edges=%s weights=%s' % (rec['n'], rec['edges'], ','.join(map(str, w))),
+                              bad, lambda rec, obl: 'coll/%s/%s' % (obl['name'].split(':')[1], rec['edges']), 'replay/r_misc.cpp')
+    bounds = {
+        'functions_encoded': ['parmcb::detail::HortonCyclesBuilder', 'FVSCyclesBuilder', 'ISOCyclesBuilder', 'SPTree::create_candidate_cycles',
+                              'greedy_fvs', 'lex_dijkstra'],
+        'bounds': 'all three collections on the same symbolic weights in one path; quick: all labelled graphs on <=4 vertices with m<=4 fully '
+                  'symbolic, heavier 3-symbolic; 0/2/3-symbolic slices of K33, Q3, 3x3 grid, K5, two-component graphs; thorough: m<=5 fully '
+                  'symbolic, 5-vertex graphs with 4<=m<=5, Petersen, K6, 3x4 grid slices',
+        'outside_bounds': 'graphs beyond those listed',
+    }
+    return run_symx_check('C14', tier, seed, 'harness/h_coll.cpp', cases, 900 if tier == 'quick' else 3300, tv, confirm, bounds,
+                          witness_pick=lambda cs: [c for c in cs if c.startswith('n=4') and 'sym=all' in c][-6:])
